@@ -19,8 +19,8 @@ import (
 // also makes the Finished values disagree: the endpoint must never complete.
 
 var scriptFaults = []string{"replace-type", "duplicate", "omit", "truncate-body", "truncate-body+close", "set-byte", "handshake-length", "insert-record", "close-before", "close-inside", "stall", "fragment(legal)", "coalesce(legal)", "replace-body", "record-version", "oversize-record", "warning-alerts", "empty-record", "length-field", "plaintext-finished",
-	"hello-version", "hello-suites", "hello-compression", "server-bad-selection", "server-cert-list", "deadline", "crafted-key-exchange", "malformed-extensions", "cert-message-omitted"}
-var scriptReach = []string{"honest-client-vs-gm-server", "honest-client-vs-auto-server", "honest-server-vs-gm-client", "must-complete-completed", "must-fail-failed", "unspecified-ok", "eut-client", "eut-server-gm", "eut-server-auto", "eut-server-tls", "alert-from-eut", "timeout-at-deadline", "legit-wait", "client-auth-path", "dev-in-client-flight", "dev-in-server-flight", "dev-after-ccs", "scripted-tls12-peer", "honest-tls12-client-vs-auto-server", "honest-tls12-client-vs-tls-server", "honest-tls12-server-vs-tls-client"}
+	"hello-version", "hello-suites", "hello-compression", "server-bad-selection", "server-cert-list", "deadline", "crafted-key-exchange", "malformed-extensions", "cert-message-omitted", "ecdhe-server-params"}
+var scriptReach = []string{"honest-client-vs-gm-server", "honest-client-vs-auto-server", "honest-server-vs-gm-client", "must-complete-completed", "must-fail-failed", "unspecified-ok", "eut-client", "eut-server-gm", "eut-server-auto", "eut-server-tls", "alert-from-eut", "timeout-at-deadline", "legit-wait", "client-auth-path", "dev-in-client-flight", "dev-in-server-flight", "dev-after-ccs", "scripted-tls12-peer", "honest-tls12-client-vs-auto-server", "honest-tls12-client-vs-tls-server", "honest-tls12-server-vs-tls-client", "npn-negotiated", "unnegotiated-optional-message-refused", "honest-ecdhe-completed"}
 
 func init() {
 	register(Family{Name: "tls-scripted-peer", Prop: "C15", ID: 1501, Weight: 1, FaultNames: scriptFaults, ReachNames: scriptReach, Run: runScriptedPeer})
@@ -55,6 +55,13 @@ type scriptRun struct {
 	ExtraExt      bool
 	ExtraExts     []reftls.Ext
 	IgnoreCertReq bool
+	// scripted ECDHE server deviations
+	SrvECDHECurve, SrvECDHEWireCurve uint16
+	SrvECDHEPoint                    []byte
+	SrvSKXWrongKey, SrvSKXStale      bool
+	NPN                              bool // scripted client and server under test negotiate NPN: one more client unit (NextProtocol)
+	NPNOfferOnly                     bool // the scripted client offers NPN, the server under test has no protocols configured
+	NPNSkip                          bool // NPN negotiated, but the client never sends NextProtocol (consistent transcript)
 }
 
 // number of outgoing units of the honest peer (for drawing At)
@@ -113,10 +120,19 @@ func drawDev(c *simkit.Choice, units int) (*reftls.Dev, int, string) {
 			d.Typ, d.RecBody = reftls.RecHandshake, reftls.Handshake(reftls.HsHelloRequest, nil)
 			why = "extra HelloRequest inserted"
 		case 7:
-			t := []uint8{1, 2, 4, 11, 12, 13, 14, 15, 16, 20, 3}[c.Choose(11, simkit.LFault)]
+			t := []uint8{1, 2, 4, 11, 12, 13, 14, 15, 16, 20, 3, 22, 67, 21, 23, 24, 5, 254}[c.Choose(18, simkit.LFault)]
 			d.RecBody = reftls.Handshake(t, drawData(c, c.Range(0, 12, simkit.LFault)))
 			d.Typ = reftls.RecHandshake
 			why = fmt.Sprintf("extra handshake message of type %d inserted", t)
+			if c.Bool(1, 2, simkit.LFault) {
+				// the peer is consistent about its extra message: it hashes it too, so
+				// only the endpoint's state machine can refuse it
+				d.InTranscript = true
+				why += " (and hashed by the peer)"
+				if t == 13 {
+					exp = expAny // a well-formed CertificateRequest at the right place is a legal message
+				}
+			}
 		case 0:
 			d.Typ, d.RecBody = reftls.RecApp, []byte("application data before Finished")
 			why = "application data during the handshake"
@@ -203,8 +219,21 @@ func runScriptedPeer(c *simkit.Choice, r *simkit.Rec) {
 	mismatch := sr.EUTServer && ((sr.SMode == modeTLS && !sr.TLS) || (sr.SMode == modeGM && sr.TLS))
 	sr.Expect = expComplete
 	sr.Why = "honest"
-	units := honestUnits(sr.EUTServer, sr.ClientAuth, sr.TLS)
-	class := c.Weighted([]int{2, 10, 3, 2}, simkit.LScen) // honest, wire deviations, hello/selection content, deadline
+	ecdhe := sr.TLS && reftls.Suite(sr.Suite).ECDHE
+	var curves []uint16
+	if sr.TLS {
+		curves = [][]uint16{{23}, {24}, {25}, {23, 24, 25}, {25, 24, 23}, {24, 23}}[c.Choose(6, simkit.LScen)]
+	}
+	units := honestUnits(sr.EUTServer, sr.ClientAuth, sr.TLS && !ecdhe)
+	if sr.EUTServer && c.Bool(1, 4, simkit.LScen) {
+		sr.NPN = true
+		units++ // CH | [Cert] CKX [CV] CCS NextProtocol Fin
+	}
+	ccsAt := units - 2
+	if sr.NPN {
+		ccsAt = units - 3
+	}
+	class := c.Weighted([]int{2, 10, 3, 2, 2}, simkit.LScen) // honest, wire deviations, hello/selection content, deadline, unnegotiated optional message
 	crafted := false
 	malformedExt := false
 	if mismatch && class != 2 {
@@ -216,13 +245,16 @@ func runScriptedPeer(c *simkit.Choice, r *simkit.Rec) {
 		sr.Expect = expComplete
 		for i := 0; i < nd; i++ {
 			d, exp, why := drawDev(c, units)
+			if d.Kind == reftls.DevPlainFinished {
+				d.At = ccsAt
+			}
 			if d.Kind == reftls.DevCoalesce {
 				// only where the next unit is a handshake message of the same flight
 				var ok []int
 				switch {
-				case !sr.EUTServer && sr.TLS && sr.ClientAuth:
+				case !sr.EUTServer && sr.TLS && !ecdhe && sr.ClientAuth:
 					ok = []int{0, 1, 2} // SH Cert CR | SHD
-				case !sr.EUTServer && sr.TLS:
+				case !sr.EUTServer && sr.TLS && !ecdhe:
 					ok = []int{0, 1} // SH Cert | SHD
 				case !sr.EUTServer && sr.ClientAuth:
 					ok = []int{0, 1, 2, 3} // SH Cert SKX CR | SHD
@@ -267,7 +299,17 @@ func runScriptedPeer(c *simkit.Choice, r *simkit.Rec) {
 			if sr.ClientAuth {
 				nsub = 7
 			}
-			switch c.Choose(nsub, simkit.LFault) {
+			sub2 := c.Choose(nsub, simkit.LFault)
+			if sr.NPN && c.Bool(1, 3, simkit.LFault) {
+				sub2 = 7
+			}
+			switch sub2 {
+			case 7:
+				// NPN was negotiated but the client goes straight from ChangeCipherSpec to
+				// Finished, hashing accordingly
+				sr.NPNSkip = true
+				sr.Expect = expFail
+				sr.Why = "negotiated NextProtocol message omitted altogether (consistent transcript)"
 			case 6:
 				// the client acts as if no certificate had been requested: no Certificate
 				// message at all (not even an empty one), consistent transcript
@@ -305,6 +347,41 @@ func runScriptedPeer(c *simkit.Choice, r *simkit.Rec) {
 				sr.Why = fmt.Sprintf("ClientHello with %d malformed well-known extensions", len(sr.ExtraExts))
 				malformedExt = true
 			case 4:
+				if ecdhe {
+					// ClientKeyExchange whose ECDHE point is malformed or not on the curve
+					size := map[uint16]int{23: 32, 24: 48, 25: 66}[curves[0]]
+					kind := c.Choose(8, simkit.LFault)
+					var pt []byte
+					switch kind {
+					case 0:
+						pt = nil
+					case 1:
+						pt = []byte{0} // point at infinity
+					case 2:
+						pt = append([]byte{4}, drawData(c, 2*size)...) // right size, not on the curve
+						pt[1] &= 0
+					case 3:
+						pt = append([]byte{4}, drawData(c, 2*size-1)...)
+					case 4:
+						pt = append([]byte{4}, make([]byte, 2*size)...)
+					case 5:
+						pt = append([]byte{4}, bytes.Repeat([]byte{0xff}, 2*size)...) // coordinates >= p
+					case 6:
+						pt = append([]byte{2}, drawData(c, size)...) // compressed form
+					case 7:
+						pt = append([]byte{4}, drawData(c, 2*size+c.Range(1, 30, simkit.LFault))...)
+					}
+					body := reftls.Vec8Body(pt)
+					at := 1
+					if sr.ClientAuth {
+						at = 2
+					}
+					sr.Devs = []*reftls.Dev{{At: at, Kind: reftls.DevReplaceBody, RecBody: body}}
+					sr.Expect = expFail
+					sr.Why = fmt.Sprintf("ClientKeyExchange with a malformed ECDHE point (kind %d, curve %d)", kind, curves[0])
+					crafted = true
+					break
+				}
 				if sr.TLS {
 					// ClientKeyExchange whose RSA ciphertext is malformed or decrypts to something
 					// that is not a pre-master secret (RFC 5246 §7.4.7.1: continue with a random
@@ -433,9 +510,9 @@ func runScriptedPeer(c *simkit.Choice, r *simkit.Rec) {
 					sr.Expect = expFail
 					sr.Why = "only ECDHE-SM2 suites"
 					if sr.TLS {
-						// the scripted client cannot do ECDHE: it ends the stream at the ServerKeyExchange
-						sr.Suites = []uint16{0xc02f, 0xc013, 0xc02b}
-						sr.Why = "only ECDHE suites, peer closes at ServerKeyExchange"
+						sr.Suites = []uint16{0xc013, 0xc02b, 0xc02f}
+						sr.Expect = expComplete
+						sr.Why = "ECDHE suites only, the usable one last (legal)"
 					}
 				case 3:
 					sr.Suites = []uint16{0x1234, sr.Suite, 0x00ff, 0xfffe}
@@ -469,8 +546,71 @@ func runScriptedPeer(c *simkit.Choice, r *simkit.Rec) {
 				sr.Expect = expFail
 			}
 		} else {
-			sub := c.Choose(4, simkit.LFault)
+			sub := c.Choose(5, simkit.LFault)
+			if ecdhe && c.Bool(1, 2, simkit.LFault) {
+				sub = 5
+			}
 			switch {
+			case sub == 5:
+				// ECDHE ServerKeyExchange with bad parameters (signed consistently, so only
+				// the parameter checks can refuse them) or a bad signature
+				size := 32
+				kind := c.Choose(9, simkit.LFault)
+				sr.SrvECDHECurve = 23
+				switch kind {
+				case 0:
+					sr.SrvECDHEPoint = []byte{}
+				case 1:
+					sr.SrvECDHEPoint = []byte{0}
+				case 2:
+					sr.SrvECDHEPoint = append([]byte{4}, drawData(c, 2*size)...)
+				case 3:
+					sr.SrvECDHEPoint = append([]byte{4}, make([]byte, 2*size)...)
+				case 4:
+					sr.SrvECDHEPoint = append([]byte{4}, drawData(c, 2*size-1)...)
+				case 5:
+					sr.SrvECDHEWireCurve = []uint16{22, 0x9999, 0xffff, 24, 1}[c.Choose(5, simkit.LFault)] // a P-256 point under another curve's name
+				case 6:
+					sr.SrvSKXWrongKey = true
+				case 7:
+					sr.SrvSKXStale = true
+				case 8:
+					sr.SrvECDHEPoint = append([]byte{2}, drawData(c, size)...)
+				}
+				sr.Why = fmt.Sprintf("ECDHE ServerKeyExchange with bad parameters or signature (kind %d)", kind)
+			case sub == 4:
+				// ServerHello carrying extensions the client did not ask for, or with
+				// malformed bodies. Whether each must be refused is not stated by the
+				// property: no crash, no hang, no one-sided completion.
+				types := []uint16{13172, 16, 5, 35, 0xff01, 0, 10, 11, 23, 18, 0xfabc, 13, 15}
+				n := 1 + c.Choose(3, simkit.LFault)
+				for i := 0; i < n; i++ {
+					t := types[c.Choose(len(types), simkit.LFault)]
+					var body []byte
+					switch c.Choose(5, simkit.LFault) {
+					case 0:
+						body = nil
+					case 1:
+						body = drawData(c, c.Range(1, 9, simkit.LFault))
+					case 2:
+						body = []byte{0xff, 0xff, 0x00}
+					case 3:
+						body = append([]byte{0x00, 0x06}, drawData(c, 6)...)
+					case 4:
+						body = []byte{0}
+					}
+					dup := false
+					for _, e := range sr.ExtraExts {
+						if e.Type == t {
+							dup = true
+						}
+					}
+					if !dup {
+						sr.ExtraExts = append(sr.ExtraExts, reftls.Ext{Type: t, Data: body})
+					}
+				}
+				sr.Why = fmt.Sprintf("ServerHello with %d unsolicited or malformed extensions", len(sr.ExtraExts))
+				malformedExt = true
 			case sub == 0 && sr.TLS:
 				// (a lower TLS version is a legal selection, but the scripted server goes on
 				// with TLS 1.2 key derivation, so the Finished values cannot agree)
@@ -478,7 +618,7 @@ func runScriptedPeer(c *simkit.Choice, r *simkit.Rec) {
 				sr.Why = fmt.Sprintf("TLS ServerHello version %04x", sr.SrvVers)
 			case sub == 1 && sr.TLS:
 				sr.SrvChoose = []uint16{0xc02f, 0x1234, 0xe013, 0}[c.Choose(4, simkit.LFault)]
-				if sr.SrvChoose == 0 {
+				if sr.SrvChoose == 0 || sr.SrvChoose == sr.Suite {
 					sr.SrvChoose = tlsRefSuites[0]
 					if sr.Suite == sr.SrvChoose {
 						sr.SrvChoose = tlsRefSuites[1]
@@ -530,7 +670,67 @@ func runScriptedPeer(c *simkit.Choice, r *simkit.Rec) {
 				}
 			}
 			sr.Expect = expFail
+			if sub == 4 {
+				sr.Expect = expAny
+			}
 		}
+	case 4:
+		// A well-formed optional message that was not negotiated (or not asked for),
+		// which the peer also hashes: only the endpoint's state machine can refuse it.
+		d := &reftls.Dev{Kind: reftls.DevInsertRecord, Typ: reftls.RecHandshake, InTranscript: true}
+		if sr.EUTServer {
+			switch k := c.Choose(3, simkit.LFault); {
+			case k == 0 && !sr.NPN:
+				sr.NPNOfferOnly = c.Bool(1, 2, simkit.LFault)
+				var w bytes.Buffer
+				proto := []string{"h2", "http/1.1", "not-offered", ""}[c.Choose(4, simkit.LFault)]
+				w.WriteByte(byte(len(proto)))
+				w.WriteString(proto)
+				pad := 32 - (len(proto)+2)%32
+				w.WriteByte(byte(pad))
+				w.Write(make([]byte, pad))
+				d.At, d.RecBody = units-1, reftls.Handshake(reftls.HsNextProtocol, w.Bytes())
+				sr.Why = "NextProtocol message although NPN was not negotiated"
+			case k == 1 && !sr.ClientAuth:
+				d.At, d.RecBody = 1, reftls.Handshake(reftls.HsCertificate, reftls.MarshalCertificate(nil))
+				if c.Bool(1, 2, simkit.LFault) {
+					name := "cli"
+					if sr.TLS {
+						name = "tlsclirsa"
+					}
+					d.RecBody = reftls.Handshake(reftls.HsCertificate, reftls.MarshalCertificate([][]byte{pki.DER(name)}))
+				}
+				sr.Why = "client Certificate message although none was requested"
+			default:
+				body := reftls.Vec16Body(drawData(c, 70))
+				if sr.TLS {
+					body = reftls.CertVerify12Body(reftls.SigRSAPKCS1SHA256, drawData(c, 256))
+				}
+				d.At, d.RecBody = ccsAt, reftls.Handshake(reftls.HsCertificateVerify, body)
+				if sr.ClientAuth {
+					sr.Why = "second CertificateVerify message"
+				} else {
+					sr.Why = "CertificateVerify message without a client certificate"
+				}
+			}
+		} else {
+			switch c.Choose(3, simkit.LFault) {
+			case 0:
+				resp := drawData(c, c.Range(4, 40, simkit.LFault))
+				body := append([]byte{1, 0, byte(len(resp) >> 8), byte(len(resp))}, resp...)
+				d.At, d.RecBody = 2, reftls.Handshake(reftls.HsCertificateStatus, body)
+				sr.Why = "CertificateStatus message although status_request was not negotiated"
+			case 1:
+				nst := &reftls.NewSessionTicket{Lifetime: 3600, Ticket: drawData(c, c.Range(0, 64, simkit.LFault))}
+				d.At, d.RecBody = ccsAt, reftls.Handshake(reftls.HsNewSessionTicket, nst.Marshal())
+				sr.Why = "NewSessionTicket message although the ServerHello did not announce one"
+			case 2:
+				d.At, d.RecBody = units-3, reftls.Handshake(reftls.HsServerHelloDone, nil)
+				sr.Why = "second ServerHelloDone"
+			}
+		}
+		sr.Devs = []*reftls.Dev{d}
+		sr.Expect = expFail
 	case 3:
 		d := &reftls.Dev{At: c.Choose(units, simkit.LFault), Kind: reftls.DevStallBefore}
 		sr.Devs = []*reftls.Dev{d}
@@ -578,6 +778,9 @@ func runScriptedPeer(c *simkit.Choice, r *simkit.Rec) {
 				if sr.TLS {
 					cfg.ClientCAs = pki.Pool("rsaCA")
 				}
+			}
+			if sr.NPN {
+				cfg.NextProtos = []string{"h2", "http/1.1"}
 			}
 			if sr.TLS && sr.Suite == reftls.SuiteRSAAES128CBC2 {
 				// off by default in the Go lineage: list it
@@ -647,6 +850,7 @@ func runScriptedPeer(c *simkit.Choice, r *simkit.Rec) {
 			}
 			cfg.ExtraExts = append(cfg.ExtraExts, sr.ExtraExts...)
 			cfg.IgnoreCertRequest = sr.IgnoreCertReq
+			cfg.NPN, cfg.NPNProto, cfg.NPNSkip = sr.NPN || sr.NPNOfferOnly, "http/1.1", sr.NPNSkip
 			if sr.ClientAuth {
 				cfg.Cert = &reftls.Identity{Chain: [][]byte{pki.DER("cli")}, Key: pki.D("cli")}
 			}
@@ -654,6 +858,7 @@ func runScriptedPeer(c *simkit.Choice, r *simkit.Rec) {
 				if !sr.VersSet {
 					cfg.Vers, cfg.VersSet = reftls.VersionTLS12, true
 				}
+				cfg.Curves = curves
 				if sr.ClientAuth {
 					cfg.Cert = &reftls.Identity{Chain: [][]byte{pki.DER("tlsclirsa")}, RSA: refRSA("tlsclirsa")}
 				}
@@ -662,16 +867,23 @@ func runScriptedPeer(c *simkit.Choice, r *simkit.Rec) {
 		} else if sr.TLS {
 			cfg := &reftls.ServerCfg{Rand: entP, Suites: []uint16{sr.Suite}, TLS12: true,
 				Sign:        &reftls.Identity{Chain: [][]byte{pki.DER("tlsrsa")}, RSA: refRSA("tlsrsa")},
-				RequestCert: sr.ClientAuth, VerifyClient: true, Vers: sr.SrvVers, ChooseSuite: sr.SrvChoose, Compression: sr.SrvCompress, CertList: sr.SrvCertList}
+				RequestCert: sr.ClientAuth, VerifyClient: true, Vers: sr.SrvVers, ChooseSuite: sr.SrvChoose, Compression: sr.SrvCompress, CertList: sr.SrvCertList, HelloExts: sr.ExtraExts}
 			if sr.ClientAuth {
 				cfg.CAs = [][]byte{reftls.SubjectFromCert(pki.DER("rsaCA"))}
+			}
+			cfg.ECDHECurve, cfg.ECDHEWireCurve, cfg.ECDHEPoint = sr.SrvECDHECurve, sr.SrvECDHEWireCurve, sr.SrvECDHEPoint
+			if sr.SrvSKXWrongKey {
+				cfg.SKXRSA = refRSA("tlsrsa2")
+			}
+			if sr.SrvSKXStale {
+				cfg.SKXRandoms = [2][]byte{drawDataStream(entP, 32), drawDataStream(entP, 32)}
 			}
 			peerRes, peerErr = reftls.ServerHandshake(pc, cfg)
 		} else {
 			cfg := &reftls.ServerCfg{Rand: entP, Suites: []uint16{sr.Suite},
 				Sign:        &reftls.Identity{Chain: [][]byte{pki.DER("srv-sign")}, Key: pki.D("srv-sign")},
 				Enc:         &reftls.Identity{Chain: [][]byte{pki.DER("srv-enc")}, Key: pki.D("srv-enc")},
-				RequestCert: sr.ClientAuth, VerifyClient: true, Vers: sr.SrvVers, ChooseSuite: sr.SrvChoose, Compression: sr.SrvCompress, CertList: sr.SrvCertList}
+				RequestCert: sr.ClientAuth, VerifyClient: true, Vers: sr.SrvVers, ChooseSuite: sr.SrvChoose, Compression: sr.SrvCompress, CertList: sr.SrvCertList, HelloExts: sr.ExtraExts}
 			if sr.ClientAuth {
 				cfg.CAs = [][]byte{reftls.SubjectFromCert(pki.DER("caA"))}
 			}
@@ -731,6 +943,8 @@ func runScriptedPeer(c *simkit.Choice, r *simkit.Rec) {
 		r.Fault(idx(scriptFaults, "hello-suites"))
 	case sr.Compress != nil:
 		r.Fault(idx(scriptFaults, "hello-compression"))
+	case sr.SrvECDHEPoint != nil || sr.SrvECDHEWireCurve != 0 || sr.SrvSKXWrongKey || sr.SrvSKXStale:
+		r.Fault(idx(scriptFaults, "ecdhe-server-params"))
 	case sr.SrvVers != 0 || sr.SrvChoose != 0 || sr.SrvCompress != 0:
 		r.Fault(idx(scriptFaults, "server-bad-selection"))
 	case sr.SrvCertList != nil:
@@ -870,6 +1084,9 @@ func runScriptedPeer(c *simkit.Choice, r *simkit.Rec) {
 			return
 		}
 		r.Reach(idx(scriptReach, "must-fail-failed"))
+		if class == 4 {
+			r.Reach(idx(scriptReach, "unnegotiated-optional-message-refused"))
+		}
 		r.Outcome = "rejected"
 	case expComplete:
 		if eut.HsErr != nil || peerErr != nil {
@@ -881,6 +1098,12 @@ func runScriptedPeer(c *simkit.Choice, r *simkit.Rec) {
 			return
 		}
 		r.Reach(idx(scriptReach, "must-complete-completed"))
+		if ecdhe && sr.Why == "honest" {
+			r.Reach(idx(scriptReach, "honest-ecdhe-completed"))
+		}
+		if peerRes != nil && peerRes.NPN {
+			r.Reach(idx(scriptReach, "npn-negotiated"))
+		}
 		if sr.Why == "honest" {
 			if sr.TLS && sr.EUTServer {
 				r.Reach(idx(scriptReach, []string{"honest-tls12-client-vs-auto-server", "honest-tls12-client-vs-auto-server", "honest-tls12-client-vs-tls-server"}[sr.SMode]))
@@ -916,7 +1139,13 @@ func runScriptedPeer(c *simkit.Choice, r *simkit.Rec) {
 	}
 }
 
-var tlsRefSuites = []uint16{reftls.SuiteRSAAES128CBC, reftls.SuiteRSAAES128GCM, reftls.SuiteRSAAES256CBC, reftls.SuiteRSAAES256GCM, reftls.SuiteRSAAES128CBC2}
+var tlsRefSuites = []uint16{reftls.SuiteRSAAES128CBC, reftls.SuiteRSAAES128GCM, reftls.SuiteRSAAES256CBC, reftls.SuiteRSAAES256GCM, reftls.SuiteRSAAES128CBC2, 0xc02f, 0xc030, 0xc014}
+
+func drawDataStream(r io.Reader, n int) []byte {
+	b := make([]byte, n)
+	io.ReadFull(r, b)
+	return b
+}
 
 // refRSA returns a fixture RSA key in the reference's form.
 func refRSA(name string) *reftls.RSAKey {
